@@ -10,14 +10,17 @@
    It is FALSE of the faithful model: every *_refuted theorem below exhibits a
    state (replayed on the implementation, known findings of C28).  Proved here:
    write-tree / commit for arbitrary nesting (C28_write_tree), and the operations
-   whose guard is simple (rm of a file, mv, clean -d).  NOT proved, only exercised
-   by the correspondence and the git oracle on every run: add (file / directory /
-   all) under a guard, rm of a directory, clean without -d; the per-directory
-   order of tree entries (sortName) and the tree ids are checked against
-   `git write-tree` by the oracle only. *)
-From Coq Require Import List NArith Bool String.
+   whose guard is simple (rm of a file, mv, clean -d), add (file / directory /
+   All / any list of names) up to cached stat data, rm of a directory, clean
+   without -d under explicit boolean guards. *)
+From Coq Require Import List NArith ZArith Bool String.
 From Coq Require Import Permutation.
 From GoGit Require Import Base.Out Model.Status Model.IndexOps Spec.GitStatus Spec.GitIndexOps Proofs.C27 Proofs.C28 Proofs.C28Tree.
+From GoGit Require Import Proofs.C28Add Proofs.C28AddCor.
+From GoGit Require Import Model.CommitHead Spec.GitCommitHead Proofs.C28Head.
+From GoGit Require Model.TreeObj Model.WriteTree Spec.GitWriteTree Proofs.C28Order.
+From GoGit Require Import Model.IndexGlob Spec.GitIndexGlob Proofs.C28Glob.
+From GoGit Require Proofs.C28IdFlat.
 Import ListNotations.
 Local Open Scope N_scope.
 
@@ -75,10 +78,132 @@ Theorem C28_ita_refuted : exists s,
 Proof. exists (st0 true [] [mkI pa MReg (mkHash 0 0) 0 1 true] [mkW pa MReg 1 2 5 false false]). split; reflexivity. Qed.
 Print Assumptions C28_ita_refuted.
 
+(* a symbolic link named .gitignore (.gitattributes, .mailmap, .gitmodules): go-git
+   refuses to write the tree, git write-tree records it *)
+Theorem C28_commit_symlink_refuted : exists s, g_commit s = None /\ List.length (s_tree_files s) = 1%nat.
+Proof.
+  exists (st0 true [] [mkI (bytes_of_string ".gitignore") MLink (mkHash 0 1) 3 5 false] []). split; reflexivity.
+Qed.
+Print Assumptions C28_commit_symlink_refuted.
+
+(* otherwise Commit records the tree of C28_write_tree *)
+Theorem C28_commit_files : forall s,
+  existsb symlink_meta (st_index s) = false -> g_commit s = Some (g_commit_files s).
+Proof. intros s H. unfold g_commit. now rewrite H. Qed.
+Print Assumptions C28_commit_files.
+
+(* --- commit: the trees in LIST form.  Model/WriteTree.v: every directory's entries are
+   sorted by sortName (TreeObj.sort_entries), the sub-trees written first, the tree encoded by
+   Tree.Encode and named by SHA-1 — g_write_tree computes the root id from the contents of the
+   case; Spec/GitWriteTree.v transcribes cache-tree.c and computes git's id.  Both ids are
+   compared with the implementation and with `git write-tree` on every commit case.
+   Proved: for entries whose names git can store (no NUL, no '/') the order BuildTree gives a
+   directory is the order git's base_name_compare requires, for every directory of every tree *)
+Theorem C28_tree_order : forall es,
+  forallb C28Order.entry_plain es = true -> C28Order.ordered_git (TreeObj.sort_entries es) = true.
+Proof. exact C28Order.sort_ordered. Qed.
+Print Assumptions C28_tree_order.
+
+(* base_name_compare is the byte order of the sort names (name, plus '/' for a directory) *)
+Theorem C28_base_name_compare : forall n1 n2 m1 m2,
+  C28Order.plain n1 = true -> C28Order.plain n2 = true ->
+  C28Order.mode_plain m1 = true -> C28Order.mode_plain m2 = true ->
+  GitWriteTree.base_name_compare n1 m1 n2 m2 =
+  C28Order.lexcmp (n1 ++ C28Order.suffix_of m1) (n2 ++ C28Order.suffix_of m2).
+Proof. exact C28Order.bnc_lex. Qed.
+Print Assumptions C28_base_name_compare.
+
+(* tree ids: for an index of distinct top-level entries (non-zero ids, none intent-to-add) the id
+   BuildTree returns — per-directory sort, Tree.Validate, Tree.Encode, SHA-1 — is the id the
+   transcription of git's cache-tree computes.  For nested directories the two ids are computed by
+   the model and by the spec on every commit case and compared with the implementation and with
+   `git write-tree`; their equality is not proved *)
+Theorem C28_write_tree_id_flat_partial : forall tbl i gid,
+  C28IdFlat.flat_id_guard i = true ->
+  WriteTree.g_write_tree tbl i = Some gid -> GitWriteTree.s_write_tree tbl i = Some gid.
+Proof. exact C28IdFlat.write_tree_id_flat. Qed.
+Print Assumptions C28_write_tree_id_flat_partial.
+
+(* two files "b" and "a" (contents "1\n", "2\n") staged in that order: the tree id is git's *)
+Example C28_write_tree_id_inhabited :
+  let tbl := [[]; [49; 10]; [50; 10]] in
+  let i := [mkI [98] MReg (mkHash 0 1) 2 5 false; mkI [97] MExec (mkHash 0 2) 2 5 false] in
+  C28IdFlat.flat_id_guard i = true /\
+  option_map hex_of_bytes (WriteTree.g_write_tree tbl i) = option_map hex_of_bytes (GitWriteTree.s_write_tree tbl i) /\
+  (exists id, WriteTree.g_write_tree tbl i = Some id /\ List.length id = 20%nat).
+Proof. vm_compute. repeat split; try reflexivity. eexists. split; reflexivity. Qed.
+
+(* a.b < a/ (directory a) < a0 : the classic case where the directory does not sort as "a" *)
+Example C28_tree_order_inhabited :
+  let es := [TreeObj.mkT 16384%Z [97] [1]; TreeObj.mkT 33188%Z [97; 48] [2]; TreeObj.mkT 33188%Z [97; 46; 98] [3]] in
+  forallb C28Order.entry_plain es = true /\
+  map TreeObj.t_name (TreeObj.sort_entries es) = [[97; 46; 98]; [97]; [97; 48]].
+Proof. vm_compute. split; reflexivity. Qed.
+
+(* --- commit: parents and the reference update.  For every repository state (HEAD
+   symbolic or detached, branch born or not, any commit table) and options
+   without explicit parents: Commit fails / creates the commit with exactly the
+   parents git commit records, and advances the branch HEAD names (creating it
+   when unborn) or HEAD itself when detached — under the guard: no merge in
+   progress, the index is empty iff its tree is the empty tree, an amended
+   commit is not a merge *)
+Theorem C28_commit_head : forall r o tree idx_empty,
+  commit_head_guard r o tree idx_empty = true ->
+  g_commit_head r o tree idx_empty = s_commit_head r o tree.
+Proof. exact commit_head_eq. Qed.
+Print Assumptions C28_commit_head.
+
+(* what a successful Commit does to the references: the commit's first parent is
+   the old HEAD (or HEAD's parents when amending), and only the reference HEAD
+   designates changes *)
+Theorem C28_commit_head_update : forall r o tree e t ps r',
+  g_commit_head r o tree e = COk t ps r' ->
+  t = tree /\ r' = update_head r NEW /\ head_of r' = Some NEW /\
+  (r_sym r = true -> r_detached r' = r_detached r) /\ (r_sym r = false -> r_branch r' = r_branch r) /\
+  (o_amend o = false -> o_parents o = [] -> ps = match head_of r with Some h => [h] | None => [] end).
+Proof.
+  intros r o tree e t ps r'. unfold g_commit_head.
+  destruct (o_all o && o_amend o); [discriminate|].
+  destruct (o_amend o && negb (is_nil (o_parents o))); [discriminate|].
+  set (P := if o_amend o then _ else _). destruct P as [err|ps0] eqn:EP; [discriminate|].
+  destruct (is_nil ps0 && e && negb (o_allow_empty o)); [discriminate|].
+  set (Q := match ps0 with [] => _ | _ => _ end). destruct Q as [err|pt]; [discriminate|].
+  destruct ((tree =? pt) && negb (o_allow_empty o)); [discriminate|].
+  intros H. inversion H; subst. repeat split.
+  - unfold update_head, head_of. destruct (r_sym r); reflexivity.
+  - intros S. unfold update_head. rewrite S. reflexivity.
+  - intros S. unfold update_head. rewrite S. reflexivity.
+  - intros A Pn. subst P. rewrite A, Pn in EP. now inversion EP.
+Qed.
+Print Assumptions C28_commit_head_update.
+
+(* a merge in progress: go-git records one parent, git two *)
+Theorem C28_commit_merge_head_refuted : exists r o tree,
+  g_commit_head r o tree false = COk tree [1] (update_head r NEW) /\
+  s_commit_head r o tree = COk tree [1; 3] (update_head r NEW).
+Proof. exists (mk_repo 1 1 1 true), (mkOpts false false false []), 2. split; reflexivity. Qed.
+Print Assumptions C28_commit_merge_head_refuted.
+
+(* amending a merge commit without changing its tree: go-git refuses, git accepts *)
+Theorem C28_commit_amend_merge_refuted : exists r o tree,
+  g_commit_head r o tree false = CErr EEmpty /\ s_commit_head r o tree = COk tree [2; 4] (update_head r NEW).
+Proof. exists (mk_repo 1 3 1 false), (mkOpts false true false []), 1. split; reflexivity. Qed.
+Print Assumptions C28_commit_amend_merge_refuted.
+
+Example C28_commit_head_inhabited :
+  commit_head_guard (mk_repo 0 0 1 false) (mkOpts false false false []) 2 false = true /\
+  commit_head_guard (mk_repo 2 2 1 false) (mkOpts false true false []) 2 false = true /\
+  g_commit_head (mk_repo 0 0 1 false) (mkOpts false false false []) 2 false =
+    COk 2 [] (mkRepo true (Some NEW) None [] None) /\
+  (exists r', g_commit_head (mk_repo 2 2 1 false) (mkOpts false true false []) 2 false = COk 2 [2] r' /\
+              r_detached r' = Some NEW /\ r_branch r' = Some 1).
+Proof. vm_compute. repeat split; try reflexivity. eexists. repeat split; reflexivity. Qed.
+
 (* --- rm of a tracked file that is not a directory in the worktree *)
 Theorem C28_rm_file_eq : forall s p,
   is_some (find_i (st_index s) p) = true ->
   is_dir_wt s p && negb (has_file s p) = false ->
+  existsb (fun f => under (wf_path f) p) (st_wt s) = false ->
   g_rm s p = s_rm s p.
 Proof. exact rm_file_eq. Qed.
 Print Assumptions C28_rm_file_eq.
@@ -93,6 +218,21 @@ Proof.
   split; eexists; split; reflexivity.
 Qed.
 Print Assumptions C28_rm_dir_missing_refuted.
+
+(* rm of an entry whose parent directory has been replaced by a file: go-git fails and keeps it *)
+Theorem C28_rm_below_file_refuted : exists s s', g_rm s [97; 47; 98] = RErr s /\ s_rm s [97; 47; 98] = ROk s' /\ st_index s' = [].
+Proof.
+  eexists (st0 true [] [mkI [97; 47; 98] MReg (mkHash 0 1) 2 5 false] [mkW pa MReg 2 2 9 false false]), _.
+  repeat split; reflexivity.
+Qed.
+Print Assumptions C28_rm_below_file_refuted.
+
+(* rm of a tracked directory that is already gone from the worktree: go-git fails, git unstages its entries *)
+Theorem C28_rm_deleted_dir_refuted : exists s s', g_rm s pd = RErr s /\ s_rm s pd = ROk s' /\ st_index s' = [].
+Proof.
+  eexists (st0 true [] [mkI pdx MReg (mkHash 0 1) 2 5 false] []), _. repeat split; reflexivity.
+Qed.
+Print Assumptions C28_rm_deleted_dir_refuted.
 
 (* rm of a directory without tracked files: go-git succeeds, git fails *)
 Theorem C28_rm_untracked_dir_refuted : exists s s', g_rm s pd = ROk s' /\ s_rm s pd = RErr s.
@@ -139,7 +279,28 @@ Proof.
 Qed.
 Print Assumptions C28_clean_subdir_refuted.
 
+(* an empty directory excluded by .gitignore is removed by Clean{Dir}, kept by git clean -f -d *)
+Theorem C28_clean_ignored_dir_refuted : exists dirs,
+  g_clean_empty_dirs dirs = [] /\ s_clean_empty_dirs dirs = [[98; 117; 105; 108; 100; 47; 101]].
+Proof. exists [([98; 117; 105; 108; 100; 47; 101], true); ([101], false)]. split; reflexivity. Qed.
+Print Assumptions C28_clean_ignored_dir_refuted.
+
 (* --- add *)
+(* a file below a path that is an index entry: go-git keeps the stale entry
+   (directory/file conflict in the index), git drops it *)
+Theorem C28_add_below_tracked_file_refuted : exists s s1 s2,
+  g_add s [97; 47; 98] = ROk s1 /\ s_add s [97; 47; 98] = ROk s2 /\
+  map ie_path (st_index s1) = [pa; [97; 47; 98]] /\ map ie_path (st_index s2) = [[97; 47; 98]].
+Proof.
+  eexists (st0 true [mkT pa MReg (mkHash 0 1)] [mkI pa MReg (mkHash 0 1) 2 5 false] [mkW [97; 47; 98] MReg 2 1 9 false false]), _, _.
+  repeat split; reflexivity.
+Qed.
+Print Assumptions C28_add_below_tracked_file_refuted.
+
+(* (C28_rm_untracked_dir_refuted above differs from git only in the result tag —
+   neither side changes anything — and is not a finding: the property is about
+   index entries and remaining files) *)
+
 (* an ignored untracked file named explicitly is staged; git refuses *)
 Theorem C28_add_ignored_refuted : exists s s', g_add s pa = ROk s' /\ st_index s' <> [] /\ s_add s pa = RErr s.
 Proof.
@@ -166,7 +327,99 @@ Proof.
 Qed.
 Print Assumptions C28_add_replaced_dir_refuted.
 
+(* --- add equals git add under a guard.  Index equality is per path and up to the
+   cached stat data (size, mtime) of UNCHANGED files, which `git ls-files -s`, a
+   tree and a commit do not show: go-git leaves such an entry alone, git refreshes
+   it (res_equiv / idx_sem_eq in Proofs/C28Add.v).
+   add_guard s: core.fileMode is on; no path of the worktree is a directory of /
+   lies below an index entry or another file; worktree paths are distinct; every
+   entry with a file has an id of the repository's format, is not intent-to-add
+   and is not falsely matched by the metadata shortcut; the ignore verdicts of
+   untracked files agree (no .git/info/exclude effect). *)
+
+(* the general statement: go-git runs doAddFile on [names], git stages the scope
+   [sc]; they agree whenever the names lie in the scope, are acceptable, and cover
+   every path of the scope whose worktree side shows a change *)
+Theorem C28_add_scope_eq : forall s sc names,
+  add_guard s = true ->
+  nodup_b names = true ->
+  (forall q, mem_path q names = true -> sc q = true /\ name_ok s q = true) ->
+  (forall q, sc q = true -> IndexOps.is_some (right_change s q) = true -> mem_path q names = true) ->
+  res_equiv (add_names s names) (ROk (with_index s (git_add_scope s sc))).
+Proof. exact add_scope_eq. Qed.
+Print Assumptions C28_add_scope_eq.
+
+(* Add(file): tracked, or untracked and not ignored *)
+Theorem C28_add_file_eq : forall s p, add_file_guard s p = true -> res_equiv (g_add s p) (s_add s p).
+Proof. exact add_file_eq. Qed.
+Print Assumptions C28_add_file_eq.
+
+(* Add(path) of a tracked file that is gone: exact equality *)
+Theorem C28_add_deleted_eq : forall s p e,
+  noconf s = true -> find_i (st_index s) p = Some e -> find_w (st_wt s) p = None -> g_add s p = s_add s p.
+Proof. exact add_deleted_eq. Qed.
+Print Assumptions C28_add_deleted_eq.
+
+(* Add(directory) *)
+Theorem C28_add_dir_eq : forall s p, add_dir_guard s p = true -> res_equiv (g_add s p) (s_add s p).
+Proof. exact add_dir_eq. Qed.
+Print Assumptions C28_add_dir_eq.
+
+(* AddWithOptions{All} = git add -A *)
+Theorem C28_add_all_eq : forall s, add_guard s = true -> res_equiv (g_add_all s) (s_add_all s).
+Proof. exact add_all_eq. Qed.
+Print Assumptions C28_add_all_eq.
+
+(* AddGlob: for EVERY list of matches (whatever the pattern matcher returns): matched files
+   acceptable, matched directories real directories, the resulting names distinct *)
+Theorem C28_add_glob_eq : forall s ms,
+  add_guard s = true -> matches_guard s ms = true -> res_equiv (g_add_matches s ms) (s_add_matches s ms).
+Proof. exact add_matches_eq. Qed.
+Print Assumptions C28_add_glob_eq.
+
+(* RemoveGlob = git rm -r -f <pattern> when every matched entry still has its file *)
+Theorem C28_rm_glob_eq : forall s pat, rm_glob_guard s pat = true -> g_rm_glob s pat = s_rm_glob s pat.
+Proof. exact rm_glob_eq. Qed.
+Print Assumptions C28_rm_glob_eq.
+
+(* RemoveGlob of an entry whose directory is already gone: go-git fails (ReadDir of the missing
+   directory) and leaves the index alone, git removes the entry *)
+Theorem C28_rm_glob_missing_dir_refuted : exists s pat s',
+  g_rm_glob s pat = RErr s /\ s_rm_glob s pat = ROk s' /\ st_index s' = [].
+Proof.
+  eexists (st0 true [] [mkI pdx MReg (mkHash 0 1) 2 5 false] []), [100; 47; 42], _. repeat split; reflexivity.
+Qed.
+Print Assumptions C28_rm_glob_missing_dir_refuted.
+
+(* --- rm of a directory all of whose entries still have their files: exact equality *)
+Theorem C28_rm_dir_eq : forall s p, rm_dir_guard s p = true -> g_rm s p = s_rm s p.
+Proof. exact rm_dir_eq. Qed.
+Print Assumptions C28_rm_dir_eq.
+
+(* --- clean without Dir: equal to git clean -f when no untracked file lies in a
+   directory git enters (one whose ancestors all hold tracked files) *)
+Theorem C28_clean_nod_eq_partial : forall s, clean_nod_guard s = true -> g_clean s false = s_clean s false.
+Proof. exact clean_nod_eq. Qed.
+Print Assumptions C28_clean_nod_eq_partial.
+
 (* ------------------------------------------------------------ non-vacuity *)
+Example C28_add_guards_inhabited :
+  let s := st0 true [mkT pa MReg (mkHash 0 1)]
+                [mkI pa MReg (mkHash 0 1) 2 5 false; mkI [98] MExec (mkHash 0 2) 2 5 false; mkI pdy MReg (mkHash 0 4) 1 5 false;
+                 mkI [103] MReg (mkHash 0 1) 2 5 false]
+                [mkW pa MReg 5 2 9 false false; mkW [98] MExec 2 2 5 false false; mkW [117] MReg 3 1 9 false false;
+                 mkW pdx MReg 3 1 9 false false; mkW pdy MReg 4 1 5 false false; mkW [111] MReg 3 1 9 true true] in
+  add_guard s = true /\ add_file_guard s pa = true /\ add_file_guard s [117] = true /\ add_dir_guard s pd = true /\
+  rm_dir_guard s pd = true /\ clean_nod_guard s = false /\
+  g_glob s [100; 42] = [pd] /\ g_glob s [42] = [pa; [98]; [117]; pd; [111]] /\ g_glob s [42; 47; 63] = [pdx; pdy] /\
+  matches_guard s (g_glob s [100; 42]) = true /\ matches_guard s (g_glob s [42; 47; 63]) = true /\
+  rm_glob_guard s [100; 47; 42] = true /\
+  clean_nod_guard (with_both s (st_index s) [mkW pa MReg 5 2 9 false false; mkW [117] MReg 3 1 9 false false]) = true /\
+  (exists s', g_add_all s = ROk s' /\ map ie_path (st_index s') = [pa; [98]; pdy; [117]; pdx]) /\
+  (exists s', g_add s pd = ROk s' /\ map ie_path (st_index s') = [pa; [98]; pdy; [103]; pdx]) /\
+  (exists s', g_rm s pd = ROk s' /\ map ie_path (st_index s') = [pa; [98]; [103]] /\ map wf_path (st_wt s') = [pa; [98]; [117]; pdx; [111]]).
+Proof. vm_compute. repeat split; try reflexivity; eexists; repeat split; reflexivity. Qed.
+
 Example C28_guards_inhabited :
   let s := st0 true [mkT pa MReg (mkHash 0 1)]
                 [mkI pa MReg (mkHash 0 1) 2 5 false; mkI [98] MExec (mkHash 0 2) 2 5 false]
